@@ -42,7 +42,7 @@ EXTRA_PRE_STATES = ["stale-tail", "hardlink"]
 
 
 # ------------------------------------------------------------------ IRs in the conversion-safe family
-def safe_ir(rng, nparams=None, with_returns=False, wide=None):
+def safe_ir(rng, nparams=None, with_returns=False, wide=None, returns_form=None):
     """typed scalar / Optional / Literal parameters with explicit type-consistent defaults, clean prose,
     no return entry: every pair of kinds converts these without loss on the unchanged tree"""
     params = OrderedDict()
@@ -71,6 +71,9 @@ def safe_ir(rng, nparams=None, with_returns=False, wide=None):
     if with_returns:
         ret = OrderedDict((("return_type", {"doc": G.clean_prose(rng), "typ": rng.choice(["int", "str"]),
                                             "default": rng.choice(["```5```", "```x```"])}),))
+    if with_returns and returns_form == "none-documented":
+        # annotated `-> None` with a documented `:returns:` (what the procedure leaves behind): no default, nothing returned
+        ret = OrderedDict((("return_type", {"doc": ret["return_type"]["doc"], "typ": "None"}),))
     return {"name": None, "type": "static", "doc": G.clean_prose(rng), "params": params, "returns": ret}
 
 
@@ -514,6 +517,40 @@ def gen_history_scenario(rng, via="api", runs=2):
     return scn
 
 
+def gen_kindset_history_scenario(rng, via="api", runs=2):
+    """a scenario of the history stratum in which the SET OF KINDS given varies from run to run while the truth (kind, file,
+    text) stays what it was: the regular runs name all three kinds, then five or six more name all three or the truth and one
+    other kind (two kinds are enough), in a drawn order.  Every target is written from the truth alone, so after the first run
+    no later run may change any file.  More often than not the truth carries a return entry (a typed one with a default, or
+    `-> None` with a documented `:returns:`); the interface is judged modulo returns as everywhere."""
+    import random
+    while True:
+        scn = gen_scenario(rng, via=via, runs=runs, allow_known=False)
+        scn.update(wide=None, truth_edit=False)
+        scn.pop("alternate", None)
+        if len(scn["given"]) == 3 and alternate_eligible(dict(scn, with_returns=False)):
+            break
+    xr = random.Random(scn["ir_seed"] * 41 + 3)
+    r = xr.random()
+    # (a function truth: `-> None` with a documented `:returns:` or no return entry; a class / argparse-function truth: a typed
+    # return entry with a default or none, as in the regular scenarios.  Not drawn, because the unchanged tree fails on them
+    # before any history: a class truth documenting `return_type: None = None` gives an argparse function whose return
+    # statement doctrans cannot read back; a function truth `-> int` ending in `return 5` makes sync raise TypeError)
+    scn["with_returns"] = r < 0.65
+    scn["returns_form"] = "none-documented" if scn["with_returns"] and scn["truth"] == "function" else None
+    others = [k for k in KINDS if k != scn["truth"]]
+    sets = [sorted(KINDS), sorted([scn["truth"], others[0]]), sorted([scn["truth"], others[1]])]
+    seq, last = [], sets[0]
+    for _ in range(xr.choice([5, 6])):
+        last = xr.choice([g for g in sets if g != last] + ([last] if xr.random() < 0.3 else []))
+        seq.append(last)
+    scn["alternate"] = [scn["truth"]] * len(seq)
+    scn["alternate_given"] = seq
+    scn.pop("prose_special", None)
+    scn["history_stratum"] = "kind-set"
+    return scn
+
+
 # the shapes of recorded findings that the regular draws reach only rarely
 KNOWN_SHAPES = ["stand-in-in-non-scope-statement", "forward-declared-function-target"]
 
@@ -545,7 +582,7 @@ def build_project(scn, root):
     """writes the files; returns dict(paths, gold_ir, expected defs)"""
     import random
     rng = random.Random(scn["ir_seed"])
-    ir = apply_prose_special(safe_ir(rng, with_returns=bool(scn.get("with_returns")), wide=scn.get("wide")), scn.get("prose_special"))
+    ir = apply_prose_special(safe_ir(rng, with_returns=bool(scn.get("with_returns")), wide=scn.get("wide"), returns_form=scn.get("returns_form")), scn.get("prose_special"))
     stale = mutate_ir(rng, ir)
     paths = {k: os.path.join(root, file_of(k, scn)) for k in KINDS}
     for tk in scn["targets"]:
@@ -963,8 +1000,11 @@ def run_scenario(scn, record=True):
             # the history goes on: nobody edits a file, only the KIND named as truth changes from run to run (the truth of
             # such a run is the first file of that kind; every other file named is a target, the former truth's file included)
             alt = []
-            for kind in scn["alternate"]:
+            for j_alt, kind in enumerate(scn["alternate"]):
                 scn_k = dict(scn, truth=kind)
+                if scn.get("alternate_given"):
+                    # the set of kinds named varies too (a subset of the kinds of the regular runs that holds the truth's kind)
+                    scn_k["given"] = list(scn["alternate_given"][j_alt])
                 before = snapshot(root)
                 if scn["via"] == "cli":
                     r = run_cli(cli_argv(scn_k, paths), extra_env={"HOME": root})
@@ -975,7 +1015,7 @@ def run_scenario(scn, record=True):
                     rec = Recorder() if record else None
                     run = (run_main if scn["via"] == "main" else run_api)(scn_k, paths, rec, home=root)
                     calls = rec.calls if rec is not None else None
-                alt.append({"truth": kind, "run": run, "before": before, "after": snapshot(root), "calls": calls})
+                alt.append({"truth": kind, "given": list(scn_k["given"]), "run": run, "before": before, "after": snapshot(root), "calls": calls})
         return {"scn": scn, "edit": edit, "alt": alt, "proj": {k: v for k, v in proj.items() if k != "paths"},
                 "paths": {k: os.path.basename(v) for k, v in paths.items()},
                 "root": root, "snaps": snaps, "runs": runs, "calls": rec_calls}
